@@ -23,6 +23,7 @@ type ProgCfg struct {
 	AssertPct                                                              int      // percent of selectors using !.
 	MaxList                                                                int
 	PathCallee                                                             bool // allow a.b(...) callees
+	AnyCallee                                                              bool // allow any expression as callee (syntax only)
 }
 
 // FullSyntax exercises every construct (C02, C14, C15).
@@ -36,7 +37,7 @@ func FullSyntax() *ProgCfg {
 		Kws:     []string{"null", "true", "false", "this", "ctx"},
 		BinOps:  ref.BinOps, PreOps: ref.PreOps,
 		WBin: 30, WPre: 10, WTypeof: 3, WCond: 6, WSel: 10, WCall: 8, WArr: 5, WParen: 6, WAssign: 4, WComma: 3,
-		AssignTargets: []string{"$v", "$w", "a"}, SpreadPct: 15, AssertPct: 25, MaxList: 3, PathCallee: true,
+		AssignTargets: []string{"$v", "$w", "a"}, SpreadPct: 15, AssertPct: 25, MaxList: 3, PathCallee: true, AnyCallee: true,
 	}
 }
 
@@ -101,6 +102,9 @@ func (c *ProgCfg) Node(r *rand.Rand, depth int) *ref.Node {
 		if c.PathCallee && r.Intn(4) == 0 {
 			callee = ref.Sel(ref.ID(pick(r, c.Idents)), pick(r, c.Funcs), false)
 		}
+		if c.AnyCallee && r.Intn(4) == 0 {
+			callee = sub()
+		}
 		n := r.Intn(c.MaxList + 1)
 		args := make([]*ref.Node, n)
 		for i := range args {
@@ -125,7 +129,9 @@ func (c *ProgCfg) Node(r *rand.Rand, depth int) *ref.Node {
 }
 
 // Layout chooses separators for a flattened program: sep[i] precedes lexeme i.
-// mode 0: minimal; 1: single spaces; 2: random white space incl. line breaks where legal.
+// mode 0: minimal; 1: single spaces; 2: random white space incl. line breaks where legal;
+// 3: like 2 but also line breaks between '.' / '!.' and the member name (accepted by the
+// implementation, left open by the grammar).
 func Layout(r *rand.Rand, f *ref.Flat, mode int) []string {
 	sep := make([]string, len(f.Lex))
 	for i := range f.Lex {
@@ -146,7 +152,7 @@ func Layout(r *rand.Rand, f *ref.Flat, mode int) []string {
 				k = 1
 			}
 			for j := 0; j < k; j++ {
-				if !f.NoBreak[i] && i > 0 && r.Intn(3) == 0 {
+				if (!f.NoBreak[i] || (mode == 3 && !f.Postfix[i])) && i > 0 && r.Intn(3) == 0 {
 					s += BreakSeps[r.Intn(len(BreakSeps))]
 				} else {
 					s += SpaceSeps[r.Intn(len(SpaceSeps))]
